@@ -20,21 +20,29 @@ Proof. unfold addp. cbn [fst snd]. rewrite !N.add_assoc. reflexivity. Qed.
 Definition size_of (r : replica) (alr : N * N * range) : N * N :=
   log_size r (fst (fst alr)) (snd (fst alr)) (snd alr).
 
-Lemma total_size_acc r todo : forall acc,
-  fold_left (fun ob alr => let x := log_size r (fst (fst alr)) (snd (fst alr)) (snd alr) in
-                           (fst ob + fst x, snd ob + snd x)%N) todo acc
-  = addp acc (total_size r todo).
+Definition tsf (r : replica) (ob : N * N) (alr : N * N * range) : N * N :=
+  let x := log_size r (fst (fst alr)) (snd (fst alr)) (snd alr) in (fst ob + fst x, snd ob + snd x)%N.
+
+Lemma total_size_acc2 r todo : forall a1 a2,
+  fold_left (tsf r) todo (addp a1 a2) = addp a1 (fold_left (tsf r) todo a2).
 Proof.
-  unfold total_size. induction todo as [|alr todo IH]; intros acc.
-  - cbn. rewrite addp_0_r. reflexivity.
-  - cbn [fold_left]. rewrite IH. rewrite (IH (_, _)).
-    unfold addp. cbn [fst snd]. rewrite !N.add_0_l, !N.add_assoc. reflexivity.
+  induction todo as [|alr todo IH]; intros a1 a2; [reflexivity|].
+  cbn [fold_left]. rewrite <- IH. f_equal.
+  unfold tsf, addp. cbn [fst snd]. rewrite !N.add_assoc. reflexivity.
+Qed.
+
+Lemma total_size_acc r todo acc :
+  fold_left (tsf r) todo acc = addp acc (total_size r todo).
+Proof.
+  unfold total_size. change (fun ob alr => _) with (tsf r).
+  rewrite <- total_size_acc2, addp_0_r. reflexivity.
 Qed.
 
 Lemma total_size_cons r alr todo :
   total_size r (alr :: todo) = addp (size_of r alr) (total_size r todo).
 Proof.
-  unfold total_size at 1. cbn [fold_left]. rewrite total_size_acc. cbn [fst snd].
+  unfold total_size at 1. change (fun ob alr => _) with (tsf r). cbn [fold_left].
+  rewrite total_size_acc. unfold tsf, size_of. cbn [fst snd].
   rewrite !N.add_0_l. destruct (log_size r _ _ _); reflexivity.
 Qed.
 
@@ -96,7 +104,7 @@ Qed.
 Lemma closed_wfst s : wfst s -> wfst (fst (closed s)).
 Proof.
   unfold wfst, closed. destruct s as [p dr ds d]. cbn [ph done_sent done_recv dd].
-  destruct p; intros H; cbn; auto. destruct cur; auto.
+  destruct p; intros H; cbn; auto.
 Qed.
 
 (** One tick: what it sends plus what remains afterwards is what remained before. *)
@@ -119,10 +127,11 @@ Proof.
       * cbn [fst snd ph done_sent]. rewrite sent_op_msgs. cbn [arm_todo map flat_map].
         rewrite <- app_assoc. reflexivity.
     + unfold arm_on. cbn [done_sent done_recv]. destruct rest as [|alr rest'].
-      * cbn. destruct (dr && ds); destruct ds; reflexivity.
-      * destruct ds; cbn.
-        -- destruct dr; reflexivity.
-        -- unfold tail_msgs. rewrite flat_needs_cons, flat_map_app, <- app_assoc. reflexivity.
+      * destruct dr, ds; reflexivity.
+      * destruct ds.
+        -- cbn. destruct dr; reflexivity.
+        -- cbn [negb andb fst snd set_ph ph done_sent sent app].
+           unfold tail_msgs. rewrite flat_needs_cons, flat_map_app, <- app_assoc. reflexivity.
 Qed.
 
 Lemma recv_remaining r s m :
@@ -160,6 +169,15 @@ Fixpoint have_of_run (s : st) (ins : list input) : option heights :=
               end
   end.
 
+Definition post (p : phase) : bool :=
+  match p with
+  | PSendPreSync _ _ _ _ | PReceivePreSyncOrDone _ _ _ | PSync _ _ | PEnd => true
+  | _ => false
+  end.
+
+Definition post_inv (r : replica) (logs : list (N * list N)) (s : st) (ms : list msg) (hv : option heights) : Prop :=
+  exists h, hv = Some h /\ ms ++ remaining r s = script r logs h.
+
 Definition sinv (r : replica) (logs : list (N * list N)) (s : st) (ms : list msg) (hv : option heights) : Prop :=
   wfst s /\
   match ph s with
@@ -167,13 +185,109 @@ Definition sinv (r : replica) (logs : list (N * list N)) (s : st) (ms : list msg
   | PSendHave todo acc => acc ++ local_heights r todo = local_heights r logs /\ ms = [] /\ hv = None
   | PReceiveHave local => local = local_heights r logs /\ ms = [Have local] /\ hv = None
   | PFailed => True
-  | _ => exists h, hv = Some h /\ ms ++ remaining r s = script r logs h
+  | _ => post_inv r logs s ms hv
   end.
+
+Lemma sinv_post r logs s ms hv :
+  post (ph s) = true -> (sinv r logs s ms hv <-> wfst s /\ post_inv r logs s ms hv).
+Proof. unfold sinv. destruct (ph s); cbn; intros E; try discriminate; tauto. Qed.
+
+Lemma sinv_failed r logs s ms hv : ph s = PFailed -> sinv r logs s ms hv.
+Proof. intros E. unfold sinv, wfst. rewrite E. auto. Qed.
+
+Lemma post_not_pre p : post p = true ->
+  match p with PStart _ | PSendHave _ _ | PReceiveHave _ => False | _ => True end.
+Proof. destruct p; cbn; intros E; try discriminate; exact I. Qed.
+
+Lemma tick_post r s : post (ph s) = true -> post (ph (fst (tick true r s))) = true.
+Proof.
+  unfold tick. destruct s as [p dr ds d]. cbn [ph done_sent done_recv dd].
+  destruct p as [logs|todo acc|local|needs todo ops bytes|needs ops bytes|rest cur| |]; cbn [post];
+    intros E; try discriminate; try reflexivity.
+  - destruct todo; [destruct (N.ltb 0 bytes)|]; reflexivity.
+  - destruct cur as [[a lrs]|].
+    + destruct lrs; [destruct rest|]; reflexivity.
+    + destruct (arm_on true _ rest); [destruct rest; reflexivity|].
+      destruct (dr && ds); reflexivity.
+Qed.
+
+Lemma recv_post s m :
+  post (ph s) = true -> post (ph (fst (recv s m))) = true \/ ph (fst (recv s m)) = PFailed.
+Proof.
+  unfold recv. destruct s as [p dr ds d]. cbn [ph done_sent done_recv dd].
+  destruct p as [logs|todo acc|local|needs todo ops bytes|needs ops bytes|rest cur| |]; cbn [post];
+    intros E; try discriminate; try (left; reflexivity).
+  - destruct m; cbn; auto.
+  - destruct cur as [[a lrs]|]; [left; reflexivity|].
+    destruct dr; [left; reflexivity|]. destruct m; cbn; auto.
+Qed.
+
+Lemma closed_post s :
+  post (ph s) = true ->
+  (fst (closed s) = s /\ snd (closed s) = []) \/ ph (fst (closed s)) = PFailed.
+Proof.
+  unfold closed. destruct (ph s) eqn:P; cbn [post]; intros E; try discriminate; auto.
+Qed.
+
+Lemma accepted_post s i : post (ph s) = true -> accepted s i = None.
+Proof. unfold accepted. destruct (ph s); cbn; intros E; try discriminate; reflexivity. Qed.
 
 Lemma local_heights_cons r al todo :
   local_heights r (al :: todo) =
   (match log_heights r (fst al) (snd al) with None => [] | Some h => [(fst al, h)] end) ++ local_heights r todo.
 Proof. reflexivity. Qed.
+
+Lemma step_sinv_post r logs s i ms hv :
+  (match i with Tick r' => r' = r | _ => True end) ->
+  post (ph s) = true ->
+  sinv r logs s ms hv ->
+  sinv r logs (fst (step true s i)) (ms ++ sent (snd (step true s i)))
+       (match hv with Some h => Some h | None => accepted s i end).
+Proof.
+  intros Hi Po I. apply (sinv_post r logs s ms hv Po) in I. destruct I as [W [h [-> E]]].
+  destruct i as [r'|m|]; cbn [step].
+  - subst r'. apply sinv_post; [apply tick_post; exact Po|]. split; [apply tick_wfst; exact W|].
+    exists h. split; [reflexivity|]. rewrite <- app_assoc.
+    rewrite (tick_remaining r s W (post_not_pre _ Po)). exact E.
+  - destruct (recv_post s m Po) as [Po'|F]; [|apply sinv_failed; exact F].
+    apply sinv_post; [exact Po'|]. split; [apply recv_wfst; exact W|].
+    exists h. split; [reflexivity|].
+    destruct (recv_remaining r s m (post_not_pre _ Po)) as [S R].
+    { intros F. rewrite F in Po'. discriminate. }
+    rewrite S, app_nil_r, R. exact E.
+  - destruct (closed_post s Po) as [[Es Eo]|F]; [|apply sinv_failed; exact F].
+    rewrite Es, Eo, app_nil_r. apply sinv_post; [exact Po|]. split; [exact W|].
+    exists h. split; [reflexivity|exact E].
+Qed.
+
+Lemma step_sinv_pre r logs s i ms hv :
+  (match i with Tick r' => r' = r | _ => True end) ->
+  post (ph s) = false ->
+  sinv r logs s ms hv ->
+  sinv r logs (fst (step true s i)) (ms ++ sent (snd (step true s i)))
+       (match hv with Some h => Some h | None => accepted s i end).
+Proof.
+  intros Hi Po [W I]. destruct s as [p dr ds d]. unfold wfst in W. cbn [ph done_sent] in *.
+  destruct p as [l|todo acc|local|needs todo ops bytes|needs ops bytes|rest cur| |]; cbn [post] in Po;
+    try discriminate.
+  - (* PStart *) destruct I as [-> [-> ->]]. subst ds.
+    destruct i as [r'|m|]; cbn; repeat split; reflexivity.
+  - (* PSendHave *) destruct I as [E [-> ->]]. subst ds.
+    destruct i as [r'|m|]; [subst r'| |]; try (cbn; repeat split; auto; fail).
+    destruct todo as [|al todo].
+    + cbn. cbn in E. rewrite app_nil_r in E. repeat split; auto.
+    + cbn [step tick ph fst snd set_ph sent app accepted]. split; [reflexivity|].
+      cbn [ph]. repeat split; auto.
+      rewrite <- E, local_heights_cons.
+      destruct (log_heights r (fst al) (snd al)); [rewrite <- app_assoc|]; reflexivity.
+  - (* PReceiveHave *) destruct I as [-> [-> ->]]. subst ds.
+    destruct i as [r'|m|]; try (cbn; repeat split; auto; fail).
+    destruct m; try (cbn; repeat split; auto; fail).
+    cbn [step recv ph fst snd set_ph sent app accepted]. split; [reflexivity|].
+    cbn [ph]. exists h. split; [reflexivity|].
+    unfold remaining, script. cbn [ph set_ph]. rewrite addp_0_l. reflexivity.
+  - (* PFailed *) destruct i as [r'|m|]; cbn; split; auto.
+Qed.
 
 Lemma step_sinv r logs s i ms hv :
   (match i with Tick r' => r' = r | _ => True end) ->
@@ -181,75 +295,8 @@ Lemma step_sinv r logs s i ms hv :
   sinv r logs (fst (step true s i)) (ms ++ sent (snd (step true s i)))
        (match hv with Some h => Some h | None => accepted s i end).
 Proof.
-  intros Hi [W I]. split.
-  { destruct i; cbn [step]; [apply tick_wfst|apply recv_wfst|apply closed_wfst]; exact W. }
-  destruct i as [r'|m|]; cbn [step].
-  - (* Tick *) subst r'.
-    assert (A : accepted s (Tick r) = None) by (unfold accepted; destruct (ph s); reflexivity).
-    rewrite A. clear A.
-    destruct (ph s) eqn:P.
-    + destruct I as [-> [-> ->]]. unfold tick. rewrite P. cbn. repeat split; reflexivity.
-    + destruct I as [E [-> ->]]. unfold tick. rewrite P. destruct todo as [|al todo].
-      * cbn. cbn in E. rewrite app_nil_r in E. repeat split; auto. rewrite E. reflexivity.
-      * cbn [fst snd set_ph ph sent app]. repeat split; auto.
-        rewrite <- E, local_heights_cons.
-        destruct (log_heights r (fst al) (snd al)); [rewrite <- app_assoc|]; reflexivity.
-    + destruct I as [-> [-> ->]]. unfold tick. rewrite P. cbn. rewrite app_nil_r. repeat split; reflexivity.
-    + destruct I as [h [-> E]]. assert (T := tick_remaining r s W). rewrite P in T. specialize (T I).
-      assert (Q : match ph (fst (tick true r s)) with
-                  | PStart _ | PSendHave _ _ | PReceiveHave _ | PFailed => False | _ => True end).
-      { unfold tick. rewrite P. destruct todo; [destruct (N.ltb 0 bytes)|]; cbn; exact I. }
-      destruct (ph (fst (tick true r s))) eqn:P'; try contradiction;
-        (exists h; split; [reflexivity|]; rewrite <- app_assoc, <- E; f_equal;
-         unfold remaining at 1; rewrite P'; exact T) || idtac.
-      all: exists h; split; [reflexivity|]; rewrite <- app_assoc, <- E; f_equal;
-           rewrite <- T; unfold remaining at 1; rewrite P'; reflexivity.
-    + destruct I as [h [-> E]]. unfold tick. rewrite P. cbn [fst snd sent]. rewrite app_nil_r.
-      exists h. split; [reflexivity|]. rewrite P. exact E.
-    + destruct I as [h [-> E]]. assert (T := tick_remaining r s W). rewrite P in T. specialize (T I).
-      assert (Q : match ph (fst (tick true r s)) with
-                  | PSync _ _ | PEnd => True | _ => False end).
-      { unfold tick. rewrite P. destruct cur as [[a lrs]|].
-        - destruct lrs; [destruct rest|]; cbn; exact I.
-        - destruct (arm_on true s rest); [destruct rest; [rewrite P|]; cbn; exact I|].
-          destruct (done_recv s && done_sent s); [|rewrite P]; cbn; exact I. }
-      destruct (ph (fst (tick true r s))) eqn:P'; try contradiction;
-        exists h; (split; [reflexivity|]); rewrite <- app_assoc, <- E; f_equal;
-        rewrite <- T; unfold remaining at 1; rewrite P'; reflexivity.
-    + destruct I as [h [-> E]]. unfold tick. rewrite P. cbn [fst snd sent]. rewrite app_nil_r.
-      exists h. split; [reflexivity|]. rewrite P. exact E.
-    + unfold tick. rewrite P. cbn. rewrite P. exact I.
-  - (* Recv *)
-    destruct (ph s) eqn:P.
-    + destruct I as [-> [-> ->]]. unfold recv, accepted. rewrite P. cbn. rewrite P. repeat split; reflexivity.
-    + destruct I as [E [-> ->]]. unfold recv, accepted. rewrite P. cbn. rewrite P. repeat split; auto.
-    + destruct I as [-> [-> ->]]. unfold recv, accepted. rewrite P.
-      destruct m; cbn [fst snd failed set_ph ph sent app]; try exact I.
-      exists h. split; [reflexivity|]. unfold remaining. cbn [ph]. rewrite addp_0_l. reflexivity.
-    + destruct I as [h [-> E]]. unfold recv. rewrite P. cbn. rewrite P, app_nil_r. eauto.
-    + destruct I as [h [-> E]].
-      destruct (ph (fst (recv s m))) eqn:P'; try exact I;
-        (assert (NF : ph (fst (recv s m)) <> PFailed) by congruence;
-         destruct (recv_remaining r s m) as [S R]; [rewrite P; exact I|exact NF|];
-         exists h; split; [reflexivity|]; rewrite S, app_nil_r, <- E; f_equal;
-         rewrite <- R; unfold remaining at 1; rewrite P'; reflexivity) || idtac.
-      all: exfalso; revert P'; unfold recv; rewrite P; destruct m; cbn; congruence.
-    + destruct I as [h [-> E]].
-      destruct (ph (fst (recv s m))) eqn:P'; try exact I;
-        (assert (NF : ph (fst (recv s m)) <> PFailed) by congruence;
-         destruct (recv_remaining r s m) as [S R]; [rewrite P; exact I|exact NF|];
-         exists h; split; [reflexivity|]; rewrite S, app_nil_r, <- E; f_equal;
-         rewrite <- R; unfold remaining at 1; rewrite P'; reflexivity) || idtac.
-      all: exfalso; revert P'; unfold recv; rewrite P; destruct cur as [[? ?]|];
-        [rewrite P; congruence|]; destruct (done_recv s); [rewrite P; congruence|];
-        destruct m; cbn; rewrite ?P; congruence.
-    + destruct I as [h [-> E]]. unfold recv. rewrite P. cbn. rewrite P, app_nil_r. eauto.
-    + unfold recv. rewrite P. cbn. rewrite P. exact I.
-  - (* Closed *)
-    assert (A : accepted s Closed = None) by (unfold accepted; destruct (ph s); reflexivity).
-    rewrite A. clear A. unfold closed.
-    destruct (ph s) eqn:P; cbn [fst snd failed set_ph ph sent]; rewrite ?P, ?app_nil_r;
-      try exact I; destruct hv; exact I.
+  intros Hi I. destruct (post (ph s)) eqn:Po;
+    [apply step_sinv_post|apply step_sinv_pre]; assumption.
 Qed.
 
 Lemma run_sinv r logs ins : forall s ms hv,
